@@ -10,7 +10,34 @@ use iroh_docs::{
 
 use crate::universe::{ns_secret, Val};
 
+/// Minimal thread-parking executor for futures that need no tokio context (replica futures,
+/// channel sends, oneshot replies). Used when already inside a tokio runtime.
+pub fn block_on_park<F: Future>(f: F) -> F::Output {
+    use std::{
+        sync::Arc,
+        task::{Context, Poll, Wake, Waker},
+    };
+    struct Parker(std::thread::Thread);
+    impl Wake for Parker {
+        fn wake(self: Arc<Self>) {
+            self.0.unpark();
+        }
+    }
+    let waker = Waker::from(Arc::new(Parker(std::thread::current())));
+    let mut cx = Context::from_waker(&waker);
+    let mut f = std::pin::pin!(f);
+    loop {
+        match f.as_mut().poll(&mut cx) {
+            Poll::Ready(v) => return v,
+            Poll::Pending => std::thread::park_timeout(std::time::Duration::from_millis(50)),
+        }
+    }
+}
+
 pub fn block_on<F: Future>(f: F) -> F::Output {
+    if tokio::runtime::Handle::try_current().is_ok() {
+        return block_on_park(f);
+    }
     thread_local! {
         static RT: RefCell<Option<tokio::runtime::Runtime>> = const { RefCell::new(None) };
     }
